@@ -182,6 +182,17 @@ class SymEval:
             x, at2 = self.fm.deref_at(e, at)
             if x is not e:
                 return self.truth(x, at2, bound, depth + 1)
+        if isinstance(e, ast.Compare) and len(e.ops) == 1 and isinstance(e.ops[0], (ast.Is, ast.IsNot)) \
+                and isinstance(e.comparators[0], ast.Constant) and e.comparators[0].value is None and depth < 8:
+            # `x is None` when the value of x is known under the case assumptions
+            tok = self.val(e.left, at, bound, depth + 1)
+            known = None
+            if tok == "None":
+                known = True
+            elif tok and (tok[0].isdigit() or tok[0] in "'\"[{(" and not tok.startswith("<")):
+                known = False
+            if known is not None:
+                return known if isinstance(e.ops[0], ast.Is) else not known
         return self.assume.get(self.val(e, at, bound, depth + 1))
 
     def hypothesis(self):
@@ -214,7 +225,7 @@ class SymEval:
                 if d.kind == "entry":
                     toks.add(name)
                     continue
-                if self.assume and len(defs) > 1 and self._dead(d):
+                if self.assume and len(defs) > 1 and (self._dead(d) or self._cut_off(d, at, name, defs)):
                     continue
                 if d.kind == "for":
                     env: dict = {}
@@ -266,6 +277,26 @@ class SymEval:
             if t is not None and t != pol:
                 return True
         return False
+
+    def _cut_off(self, d, at, name: str, defs) -> bool:
+        """every path on which this definition is still current at `at` passes a branch edge that the case assumptions
+        exclude (e.g. `if x is None:` with x known to be None: the definition before the `if` never gets around it)"""
+        cfg = self.fm.cfg
+        others = [x for x in defs if x is not d]
+        dead = []
+        ids = cfg.reach_avoiding(d, others)
+        if at.id not in ids:
+            return False
+        for i in ids:
+            b = cfg.nodes[i]
+            if b.kind == "branch" and b.test is not None:
+                tnode = cfg.nodes[next(iter(cfg.g.predecessors(b.id)))]
+                t = self.truth(b.test, tnode)
+                if t is not None and t != b.pol:
+                    dead.append(b)
+        if not dead:
+            return False
+        return at.id not in cfg.reach_avoiding(d, others + dead)
 
     def _appends(self, name: str):
         """Contributions to the collection `name`: (cfg node, element token, extra condition or None)."""
